@@ -132,8 +132,12 @@ namespace ArgMapper.Driver
 included) still what the caller put there? -/
 def runAlias (b : Block) : Res :=
   let v := ((field b "alias").getD []).headD "skip"
-  { conform := none,
-    prop := if v = "modified" ∨ v = "panic" then some s!"calling_the_redefined_function_{v}_the_callers_option_slice" else none,
+  let sib := ((field b "sibling").getD []).headD "skip"
+  let p08 := if v = "modified" ∨ v = "panic" then some s!"calling_the_redefined_function_{v}_the_callers_option_slice" else none
+  -- Redefine (and Call) on a function must leave every other function as it was: also one whose default options
+  -- live in the same array, behind the target's own
+  let p09 := if sib = "disturbed" ∨ sib = "panic" then some s!"redefine_or_call_on_the_target_{sib}_a_function_sharing_its_default_option_array" else none
+  { conform := none, prop := p08, props := [("C09", verdictStr p09)],
     stats := ["execs=1", "outcome=ok", "size=1"] }
 
 end ArgMapper.Driver
